@@ -36,6 +36,9 @@ def stages(tier, seed, bins):
             c["q"] = c["td"] if rnd.random() < 0.8 else max(1, c["td"] - 1)
         if rnd.random() < 0.25 and N >= 10:
             c["dupcopies"] = rnd.choice([2, 3])  # exact repeats: a landmark and a non-landmark may coincide (distance exactly 0)
+        # the same data measured in another unit (widths / kernel parameters converted with it): every clause is scale free
+        if rnd.random() < 0.15:
+            c["xscale"] = rnd.choice([1e-6, 1e-3, 1e3, 1e6])
         cases.append(c)
     for i in range(600 if thorough else 50):
         m = rnd.choice(["lmds", "lisomap"])
